@@ -158,10 +158,17 @@ class Tr:
             a, b = kids(n)
             if op in ("&&", "||"):
                 return "(.%s (%s) (%s))" % ("land" if op == "&&" else "lor", self.expr(a), self.expr(b))
-            if op in ("<", "=="):
+            if op in ("<", "==", "!=", ">", ">=", "<="):
                 if width(a)[1] or width(b)[1]:
                     raise NoFit("signed comparison")
-                return "(.%s (%s) (%s))" % ("lt" if op == "<" else "eq", self.expr(a), self.expr(b))
+                # `e == 0` is read as `!e`, `e != 0` as `!!e` (same 0/1 value); `a > b` as `b < a`, `a >= b` as `!(a < b)`
+                if op in ("==", "!=") and 0 in (self.const(a), self.const(b)):
+                    e = self.expr(b if self.const(a) == 0 else a)
+                    return "(.lnot (%s))" % e if op == "==" else "(.lnot (.lnot (%s)))" % e
+                ea, eb = self.expr(a), self.expr(b)
+                return {"<": "(.lt (%s) (%s))" % (ea, eb), "==": "(.eq (%s) (%s))" % (ea, eb),
+                        "!=": "(.lnot (.eq (%s) (%s)))" % (ea, eb), ">": "(.lt (%s) (%s))" % (eb, ea),
+                        ">=": "(.lnot (.lt (%s) (%s)))" % (ea, eb), "<=": "(.lnot (.lt (%s) (%s)))" % (eb, ea)}[op]
             bits, sg = width(n)
             if sg:
                 raise NoFit("signed arithmetic on a non-constant")
@@ -235,13 +242,68 @@ class Tr:
             return True
         return any(self.has_call(c, rx) for c in kids(n))
 
+    ORDER = [".rej", ".ginit", ".gset", ".setErr", ".setInPtr", ".set .inlen", ".set .status", ".set .plen", ".set .total",
+             ".tailTopUp", ".tailCalls", ".tailRet", ".unsupported"]
+
+    def reorder(self, out):
+        """adjacent stores to different fields whose right-hand sides do not read the other's field commute: bring them
+        into the order in which today's source writes them (a sound normalisation; everything else keeps its place)"""
+        def info(t):
+            m = re.match(r"\.set \.(\w+) (.*)$", t)
+            if m:
+                return ("set", m.group(1), set(re.findall(r"\.fld \.(\w+)", m.group(2))))
+            if t.startswith(".setErr"):
+                return ("set", "error", set())
+            if t == ".setInPtr":
+                return ("set", "inptr", set())
+            return None
+
+        def key(t):
+            for i, k in enumerate(self.ORDER):
+                if t.startswith(k):
+                    return i
+            return len(self.ORDER)
+        changed = True
+        while changed:
+            changed = False
+            for i in range(len(out) - 1):
+                a, b = info(out[i]), info(out[i + 1])
+                if a and b and a[1] != b[1] and a[1] not in b[2] and b[1] not in a[2] and key(out[i]) > key(out[i + 1]):
+                    out[i], out[i + 1] = out[i + 1], out[i]
+                    changed = True
+        return out
+
     def stmts(self, body):
+        return self.reorder(self.stmts_raw(body))
+
+    def stmts_raw(self, body):
         out = []
         for s in kids(body):
             try:
                 k = s.get("kind")
                 if k == "IfStmt":
                     parts = kids(s)
+                    if self.base and len(parts) == 3:
+                        chain, consts, node = [], [], s
+                        while node.get("kind") == "IfStmt":
+                            ps = kids(node)
+                            c0 = strip(ps[0])
+                            ok = c0.get("kind") == "BinaryOperator" and c0.get("opcode") == "==" and \
+                                strip(kids(c0)[0]).get("referencedDecl", {}).get("name") == "flags" and self.const(kids(c0)[1]) is not None
+                            if not ok:
+                                raise NoFit("else chain over something else than flags == constant")
+                            consts.append(self.const(kids(c0)[1]))
+                            chain.append(ps[1])
+                            node = ps[2] if len(ps) == 3 else {}
+                        if node or len(set(consts)) != len(consts):
+                            raise NoFit("else chain with a final else / repeated constants")
+                        for then in chain:
+                            tb = kids(then) if then.get("kind") == "CompoundStmt" else [then]
+                            if all(t.get("kind") == "CallExpr" and re.fullmatch(r"\w+_(init|update|final)", callee(t) or "") for t in tb):
+                                out.append(".tailCalls")
+                            else:
+                                raise NoFit("body of the flags dispatch")
+                        continue
                     if len(parts) != 2:
                         raise NoFit("if with else")
                     cond, then = parts
